@@ -135,6 +135,16 @@ struct Remote : Scenario {
       if (was_data && script[ph] == 2) in_data = true;
     }
   }
+  // with a fault budget (family msg): a read of the message on standard input returns fewer bytes than asked for and than are there -- legal for
+  // any descriptor; nothing may change
+  void alternatives(World &w, Proc &p, const Req &r, std::vector<Alt> &a) override {
+    if (fam != "msg" || w.ex->bound[BK_FAULT] <= 0 || p.vpid != qpid || r.op != VK_READ || r.a[0] != 0) return;
+    Ofd *o = w.O(p, 0); Inode *i = (o && o->kind == K_FILE) ? w.k.I(o->ino) : nullptr; if (!i) return;
+    size_t left = i->data.size() > (size_t) o->off ? i->data.size() - o->off : 0;
+    left = std::min<size_t>(left, (size_t) r.a[1]);   // what a full read would return
+    if (left > 1) { a.push_back({BK_FAULT, ALT_SHORT, 1}); if (left > 3) a.push_back({BK_FAULT, ALT_SHORT, (int) (left / 2)}); if (left > 2) a.push_back({BK_FAULT, ALT_SHORT, (int) left - 1}); }
+  }
+  void after_step(World &w, Proc &, const Step &st) override { if (st.injected && !st.err) w.counters["short_reads_of_the_message"]++; }
   bool on_quiescent(World &w) override {
     if (from_client && !srv_closed && !from_client->buf.empty()) { server(w); return true; }
     { long dl = w.next_deadline(); if (dl >= 0 && ++ticks < 20) { w.advance_clock(dl); return true; } }   // nobody can act: time passes until the client's timeout
